@@ -78,6 +78,10 @@ def run_one(chk, sseed):
             lines = [ln.replace("deb [", f"deb [{policy} ").replace("deb-", "deb-") if ln.startswith("deb [") else ln for ln in w.lines]
             w.lines = lines
             w.sb.write_config(w.lines, w.settings)
+        if common.has_s3(repo, w.cfgs[url], w.stores()[url]):
+            chk.evaluated(None)
+            chk.count("skipped(S3)")
+            return
         cn = sorted(repo["codenames"])[0]
         cs = repo["codenames"][cn]
         kinds = []
